@@ -764,7 +764,11 @@ func NondetAddrStr(name string) (string, bool) {
 	ok := valUint(name+"_valid") != 0
 	if ok {
 		h := sha256.Sum256(append([]byte("verif-addr:"), bz...))
-		s, err := sdk.Bech32ifyAddressBytes(sdk.GetConfig().GetBech32AccountAddrPrefix(), h[:20])
+		payload := h[:20]
+		if dec, usable := decodedPayload(namePrefix + name); usable {
+			payload = dec
+		}
+		s, err := sdk.Bech32ifyAddressBytes(sdk.GetConfig().GetBech32AccountAddrPrefix(), payload)
 		if err != nil {
 			panic(err)
 		}
@@ -782,6 +786,27 @@ func NondetAddrStr(name string) (string, bool) {
 		return " " + core, false
 	}
 	return core, ok
+}
+
+// decodedPayload: the bytes the solver's model says the abstract account string `key` decodes to
+// (witness entry key+"_dec"), usable as the account's payload when they form an acceptable address
+// (1..32 bytes) and no other abstract account with a different core decodes to the same bytes (the
+// symbolic side treats different cores as different strings).
+func decodedPayload(key string) ([]byte, bool) {
+	v, has := cur.Values[key+"_dec"]
+	if !has || v == "nil" {
+		return nil, false
+	}
+	bz, err := hex.DecodeString(v)
+	if err != nil || len(bz) < 1 || len(bz) > 32 {
+		return nil, false
+	}
+	for k2, v2 := range cur.Values {
+		if strings.HasSuffix(k2, "_dec") && k2 != key+"_dec" && v2 == v && cur.Values[strings.TrimSuffix(k2, "_dec")] != cur.Values[key] {
+			return nil, false
+		}
+	}
+	return bz, true
 }
 
 // PRIMITIVE. ByteAt is s[i], or 0 when i is out of range (never panics, never forks).
